@@ -7,7 +7,7 @@
 //!   | sa (swap in a fresh arena, old one dropped) | cn:<j> (clone into j) | tk:<j> (take into j) | dr (drop)
 //! After every op one block of fields: [op ok(1)/panic(99), return value...], then for every object 0..3
 //! (empty fields if absent): [total_size, len, iovs_ok, stable slices], slice lengths, all bytes,
-//! anchors (count, chunk#)*, chunk# of every slice (0 = not in an arena chunk), cache [chunk#, cap, bump offset],
+//! anchors (count, chunk#)*, (chunk#, offset) of every slice (chunk 0 = not in an arena chunk), cache [chunk#, cap, bump offset],
 //! pending backrefs (logical end, slice index, begin, len)*; then [live chunks, live bytes, every slice in live memory].
 use crate::util::*;
 use owning_iovec::{Backref, ByteArena, OwningIovec};
@@ -87,6 +87,8 @@ impl World {
                             bytes.extend(s.iter().map(|b| *b as i128));
                         }
                         cids.push(cid);
+                        let start = self.chunk_ids.iter().find(|(_, v)| **v == cid).map(|(k, _)| *k).unwrap_or(0);
+                        cids.push(if cid == 0 { 0 } else { (*addr - start) as i128 });
                     }
                     obs.push(bytes);
                     let mut a = Vec::new();
@@ -176,7 +178,11 @@ pub fn run(line: &str) -> Obs {
                     assert_eq!(s.slice(), &data[..]);
                     let (_, slice, anchor) = unsafe { s.components() };
                     if !slice.is_empty() {
+                        let end = slice.as_ptr() as usize + slice.len();
                         o.iov.push(slice);
+                        // did push() borrow the anchored memory (0) or copy it (1)?
+                        let last = *o.iov.verif_view().0.last().unwrap();
+                        ret.push((last.0 + last.1 != end) as i128);
                         o.iov.push_anchor(anchor);
                     }
                 }
